@@ -122,9 +122,10 @@ fn generate_dynamic(g: &mut Gen, stats: &mut GenStats) -> Scenario {
             break;
         }
         let t = *g.rng.pick(&targets);
-        // no mutation is aimed through a path that an earlier mutation turned into a link (the
-        // later path would alias another part of the tree; a sampling restriction)
-        if mutations.iter().any(|m: &Mutation| matches!(m.op, MutOp::Retarget(_)) && is_below(&t.path, &m.path)) {
+        // no mutation is aimed at or through a path that an earlier mutation turned into a link
+        // (the later operation would follow the link and alias another part of the tree; a
+        // sampling restriction)
+        if mutations.iter().any(|m: &Mutation| matches!(m.op, MutOp::Retarget(_)) && is_under(&t.path, &m.path)) {
             stats.restricted += 1;
             continue;
         }
@@ -743,7 +744,7 @@ fn pass_through(wi: usize, w: &Walker, s: &View, uv: &View, u: &UFeed, ex: &Expe
         .entries
         .iter()
         .enumerate()
-        .filter(|(j, e)| e.is_dir && ex.lv.iter().any(|col| col[*j] == LV::Tree))
+        .filter(|(j, e)| e.is_dir && ex.lv.iter().any(|col| col[*j] == LV::Tree || col[*j] == LV::NotTree))
         .map(|(_, e)| e.wp.as_str())
         .collect();
     let may_dirs: Vec<&str> = u
